@@ -646,12 +646,81 @@ def extras(ctx):
             ctx.oracle('C19.d the motions of row i of a LARGE batch equal those of the single travel time on their common length (==)', bad is None, inputs, detail=bad)
 
 
+def extras_r5(ctx):
+    """(a) delays NEAR a whole number of samples (2 tt / dt within 1e-5 ... 1e-9 of an integer, not equal to it) are interpolated like any
+    other fractional delay: row of a batch that also holds a clearly fractional delay == the single call (==), and the energy agrees with
+    the shifted-wave definition evaluated with np.interp; (b) VERY LARGE batches (> 2^23 grid points) with reduction factors != 1"""
+    import eqsig
+    from eqsig import surface as sf
+    rng = ctx.rng
+    for it in range(6 if ctx.tier == 'quick' else 50):
+        n = rng.randint(60, 300)
+        dt = rng.choice([0.005, 0.01, 0.02])
+        a = gen.noise_record(rng, n)
+        k = rng.randint(1, 40)
+        rel = rng.choice([1e-5, 2e-6, 1e-7, 1e-9]) * rng.choice([1, -1])
+        tt_near = 0.5 * dt * k * (1 + rel)
+        others = [0.5 * dt * (rng.randint(0, 40) + rng.choice([0.0, 0.37, 0.5]))]
+        for nodal, ur, dr in ((True, 1.0, 1.0), (False, 0.8, 0.6)):
+            single = call_impl(sf.calc_surface_energy, eqsig.AccSignal(a.copy(), dt), np.array([tt_near]), nodal=nodal, up_red=ur, down_red=dr)
+            alone = call_impl(sf.calc_surface_energy, eqsig.AccSignal(a.copy(), dt), tt_near, nodal=nodal, up_red=ur, down_red=dr)
+            batch = call_impl(sf.calc_surface_energy, eqsig.AccSignal(a.copy(), dt), np.array([tt_near] + others), nodal=nodal, up_red=ur, down_red=dr)
+            ok = single[0] == batch[0] == alone[0] == 'ok'
+            if ok:
+                srow = np.asarray(single[1]).reshape(-1)
+                arow = np.asarray(alone[1]).reshape(-1)
+                brow = np.asarray(batch[1])[0]
+                L = min(len(srow), len(brow))
+                ok = bool(np.array_equal(srow[:L], brow[:L]) and np.array_equal(arow[:L], brow[:L]))
+                # definition: 0.5 v|v| of the cumulative trapezoid of up_red*a -/+ down_red*delayed(a), delay by linear interpolation, zero fill
+                sh = 2 * tt_near / dt
+                ms = int(sh)
+                up = np.pad(a, (0, ms)) * ur
+                dn = np.interp(np.arange(n + ms) - sh, np.arange(n), a, left=0, right=0) * dr
+                acc = up - dn if nodal else up + dn
+                vel = np.concatenate([[0.0], np.cumsum((acc[1:] + acc[:-1]) * dt / 2)])
+                want = 0.5 * vel * np.abs(vel)
+                L2 = min(len(want), len(srow))
+                sc = max(float(np.max(np.abs(want))), 1e-300)
+                ok = ok and float(np.max(np.abs(srow[:L2] - want[:L2]))) <= 1e-9 * sc
+            ctx.hist('delay near a whole number of samples')
+            ctx.count_case(('near-int', a.tobytes(), dt, tt_near, nodal), True)
+            ctx.oracle('C19 a delay NEAR a whole number of samples is a fractional delay: scalar == length-1 array == row of a batch with other delays (==), and the energy '
+                       'is that of the linearly interpolated delayed wave (1e-9)', ok,
+                       {'a': a, 'dt': dt, 'travel_time': tt_near, 'delay_in_samples': 2 * tt_near / dt, 'other_travel_times': others, 'nodal': nodal, 'up_red': ur, 'down_red': dr})
+    for n, m in ([(42000, 210)] if ctx.tier == 'quick' else [(42000, 210), (131072, 80), (20000, 500)]):
+        dt = 0.01
+        a = gen.noise_record(rng, n) * np.exp(-((np.arange(n) - n / 4) / (n / 6)) ** 2)
+        tts = np.sort(np.array([rng.uniform(0.0, 0.4) for _ in range(m)]))
+        for red in ('scalar', 'array'):
+            ur = 0.9 if red == 'scalar' else np.linspace(0.7, 1.0, m)
+            dr = 0.8 if red == 'scalar' else np.linspace(0.5, 0.9, m)
+            inputs = {'a': f'noise x envelope, n={n} (seeded)', 'dt': dt, 'travel_times': f'{m} values in [0, 0.4) (seeded, sorted)', 'grid': n * m, 'reductions': red}
+            ctx.hist(f'very large batch/{n}x{m}/{red} reductions')
+            ctx.count_case(('vlarge', n, m, red), True)
+            b = call_impl(sf.calc_surface_energy, eqsig.AccSignal(a.copy(), dt), tts.copy(), nodal=True, up_red=ur, down_red=dr, trim=True)
+            if b[0] != 'ok':
+                ctx.oracle('C19.d very large batch returns', False, inputs, detail=b)
+                continue
+            bad = None
+            for i in sorted(set([0, m - 1, m - 2, m // 2, (3 * m) // 4] + [rng.randrange(m) for _ in range(3)])):
+                srow = np.asarray(sf.calc_surface_energy(eqsig.AccSignal(a.copy(), dt), np.array([tts[i]]), nodal=True, up_red=ur if red == 'scalar' else np.array([ur[i]]),
+                                                        down_red=dr if red == 'scalar' else np.array([dr[i]]), trim=True)).reshape(-1)
+                brow = np.asarray(b[1])[i]
+                if not (len(srow) == len(brow) and np.array_equal(brow, srow)):
+                    bad = {'row': i, 'max|batch row|': float(np.max(np.abs(brow))), 'max|single|': float(np.max(np.abs(srow)))}
+                    break
+            del b
+            ctx.oracle('C19.d row i of a VERY LARGE batch (> 2^23 grid points, reductions != 1) equals the single-travel-time result (==)', bad is None, inputs, detail=bad)
+
+
 _run_main = run
 
 
 def run(ctx):
     _run_main(ctx)
     extras(ctx)
+    extras_r5(ctx)
     ctx.flush()
 
 
